@@ -1,8 +1,8 @@
-// Command vxh is the implementation side of the correspondence check: for one
+// Package hx is the shared library of the implementation side of the correspondence check: for one
 // property it generates cases from VERIF_SEED, runs the real vaxis code on
 // them in-process and writes one line `op<TAB>impl-result` per case, in the
 // line protocol the Lean driver `vxdrv` reads.
-package main
+package hx
 
 import (
 	"bufio"
@@ -11,22 +11,22 @@ import (
 	"fmt"
 	"os"
 	"path/filepath"
-	"sort"
 	"strconv"
+	"strings"
 )
 
 // Run is the context handed to a property's generator.
 type Run struct {
-	Prop    string
-	Tier    string
-	Seed    uint64
+	Prop     string
+	Tier     string
+	Seed     uint64
 	Thorough bool
-	Replay  string
-	w       *bufio.Writer
-	n       int
-	dist    map[string]int
-	samples []string
-	notes   map[string]interface{}
+	Replay   string
+	w        *bufio.Writer
+	n        int
+	dist     map[string]int
+	samples  []string
+	notes    map[string]interface{}
 }
 
 // Emit writes one case.
@@ -46,35 +46,19 @@ func (r *Run) Count(key string) { r.dist[key]++ }
 
 func (r *Run) Note(key string, v interface{}) { r.notes[key] = v }
 
-type propFn func(*Run) error
-
-var props = map[string]propFn{}
-
-func register(name string, fn propFn) { props[name] = fn }
-
-func main() {
+// Main is the entry point of a per-driver harness command:
+//
+//	vxh-<name> [-tier quick|thorough] [-seed N] [-replay FILE] -out DIR
+//
+// It writes DIR/<name>.ops (one line `op<TAB>impl-result` per case) and DIR/<name>.stats.json.
+func Main(name string, fn func(*Run) error) {
 	tier := flag.String("tier", "quick", "quick|thorough")
 	seed := flag.Uint64("seed", 0, "seed (default: $VERIF_SEED or 1)")
 	out := flag.String("out", "", "output directory")
 	replay := flag.String("replay", "", "replay file")
 	flag.Parse()
-	if flag.NArg() != 1 {
-		fmt.Fprintln(os.Stderr, "usage: vxh [-tier T] [-seed N] -out DIR <driver>")
-		os.Exit(2)
-	}
-	name := flag.Arg(0)
-	fn, ok := props[name]
-	if !ok {
-		names := []string{}
-		for k := range props {
-			names = append(names, k)
-		}
-		sort.Strings(names)
-		fmt.Fprintln(os.Stderr, "unknown driver", name, "have", names)
-		os.Exit(2)
-	}
 	if *seed == 0 {
-		if s, err := strconv.ParseUint(os.Getenv("VERIF_SEED"), 10, 64); err == nil {
+		if s, err := strconv.ParseUint(os.Getenv("VERIF_SEED"), 10, 64); err == nil && s != 0 {
 			*seed = s
 		} else {
 			*seed = 1
@@ -100,4 +84,39 @@ func main() {
 	st := map[string]interface{}{"cases": r.n, "distribution": r.dist, "samples": r.samples, "notes": r.notes}
 	b, _ := json.MarshalIndent(st, "", " ")
 	os.WriteFile(filepath.Join(*out, name+".stats.json"), b, 0o644)
+}
+
+// Case starts a new stateful case: emits a `#case <id>` line (the Lean driver resets its state).
+func (r *Run) Case(id string) { r.Emit("#case "+id, "-") }
+
+// Add bumps a distribution counter by n.
+func (r *Run) Add(key string, n int) { r.dist[key] += n }
+
+// Cases returns the number of lines emitted so far.
+func (r *Run) Cases() int { return r.n }
+
+// replayOps re-runs the ops listed in a replay file (JSON with an "ops" array of op strings).
+func ReplayOps(r *Run, f func(op []string) (string, bool)) error {
+	b, err := os.ReadFile(r.Replay)
+	if err != nil {
+		return err
+	}
+	var rp struct {
+		Ops []string `json:"ops"`
+	}
+	if err := json.Unmarshal(b, &rp); err != nil {
+		// plain text: one op per line
+		sc := bufio.NewScanner(strings.NewReader(string(b)))
+		for sc.Scan() {
+			rp.Ops = append(rp.Ops, strings.SplitN(sc.Text(), "\t", 2)[0])
+		}
+	}
+	for _, op := range rp.Ops {
+		res, ok := f(strings.Fields(op))
+		if !ok {
+			res = "bad-op"
+		}
+		r.Emit(op, res)
+	}
+	return nil
 }
